@@ -95,6 +95,7 @@ CASES_HEADER = """From Coq Require Import List NArith ZArith Bool String.
 From Coq.Strings Require Import Byte.
 From Gopki.Model Require Import Bytes Base64 Der Asn1 Text Algs Ext Rdn Time X509 Generate Merge Validate Current Effective CaseLib.
 Import ListNotations.
+Set Printing Depth 1000000.
 Definition cases : list (bool * cert_case) := [
 """
 CODES = {1: "the model yields a certificate, the implementation reported an error", 2: "the implementation wrote a certificate although the model (and the property) demands an error",
@@ -142,7 +143,7 @@ def run_cert(kind, tier, seed, C, tz=None):
             err = "coqc %s failed: %s" % (name, e.strip()[-400:]); continue
         m = re.search(r"M\s*=\s*(.*?)\s*:\s*list", re.sub(r"%(N|nat|Z)\b", "", o), re.S)
         if not m: err = "coqc %s: no result" % name; continue
-        found = re.findall(r"\((\d+)%?n?a?t?, \[([^\]]*)\]\)", re.sub(r"\s+", " ", m.group(1)))
+        found = re.findall(r"\( ?(\d+)%?n?a?t?, ?\[([^\]]*)\]\)", re.sub(r"\s+", " ", m.group(1)))
         err = count_check(o, len(found), name) or err
         for j, codes in found:
             cs = [int(x) for x in re.findall(r"\d+", codes)]
@@ -164,6 +165,7 @@ def run_cert(kind, tier, seed, C, tz=None):
 DIR_HEADER = """From Coq Require Import List Arith Bool String.
 From Gopki.Model Require Import Bytes Text Dir Plan Run Ops Cli Current DirCaseLib.
 Import ListNotations.
+Set Printing Depth 1000000.
 Definition cases : list (list hstep * list obsT) := [
 """
 
@@ -207,11 +209,11 @@ def run_dir(kind, tier, seed, C):
                  10: "C18: a directory in which every entity reaches a root through defined issuers was refused",
                  8: "C15/C20: the run panicked instead of ending with a result",
                  7: "C11: the entities a successful run wrote are not the ones its flags demand in the state the history had reached (regen relation)"}
-        found = re.findall(r"\((\d+), \(\[([\d; ]*)\], \[([\d;, ()]*)\]\)\)", body)
+        found = re.findall(r"\( ?(\d+), ?\( ?\[([\d; ]*)\], ?\[([\d;, ()]*)\]\)\)", body)
         err = count_check(o, len(found), name) or err
         for j, steps_s, rules_s in found:
             i = idx[int(j)]
-            rules = [(int(a), int(b)) for a, b in re.findall(r"\((\d+), (\d+)\)", rules_s)]
+            rules = [(int(a), int(b)) for a, b in re.findall(r"\( ?(\d+), ?(\d+)\)", rules_s)]
             det = []
             if steps_s.strip(): det.append("implementation and model differ at step(s) [%s]" % steps_s)
             for st, r in rules: det.append("step %d: %s" % (st, RULES.get(r, str(r))))
@@ -234,12 +236,14 @@ KEY_HEADER = """From Coq Require Import List NArith ZArith Bool String.
 From Coq.Strings Require Import Byte.
 From Gopki.Model Require Import Bytes Base64 Der Asn1 Text Algs Pkcs8 Pem KeyCaseLib.
 Import ListNotations.
+Set Printing Depth 1000000.
 """
 KEY_CODES = {("K", 1): "PKCS#8 bytes written by gopki differ from the model's encoding (RFC 5208/5915 form with fixed-width scalar)",
              ("K", 2): "the written PKCS#8 does not parse back (model parser) to the same key",
              ("P", 3): "gopki's parser and the model's parser read different keys from the same bytes",
              ("P", 4): "gopki rejects a PKCS#8 structure the model (and the property) accepts",
              ("P", 5): "gopki accepts bytes that are not a valid supported key",
+             ("P", 6): "C17: the key gopki reads has the right scalar but a public point that does not belong to it (scalar times base point, computed by the harness)",
              ("M", 1): "PEM block list differs from the model's pem.Decode", ("M", 2): "'undecodable data left' differs from the model",
              ("M", 3): "objects / error reported by cert.ReadPem differ from the model", ("M", 4): "the directory import keeps different objects than the model",
              ("H", 1): "stored configuration hash read from the artifact file differs from the model", ("H", 2): "opening the directory panicked on this artifact file",
@@ -278,13 +282,13 @@ def run_keys(kind, tier, seed, C):
             err = "coqc %s failed: %s" % (name, e.strip()[-400:]); continue
         m = re.search(r"M\s*=\s*(.*?)\s*:\s*list", re.sub(r"%(N|nat|Z)\b", "", o), re.S)
         if not m: err = "coqc %s: no result" % name; continue
-        found = re.findall(r"\((\d+), \[([^\]]*)\]\)", re.sub(r"\s+", " ", m.group(1)))
+        found = re.findall(r"\( ?(\d+), ?\[([^\]]*)\]\)", re.sub(r"\s+", " ", m.group(1)))
         err = count_check(o, len(found), name) or err
         for j, codes in found:
             cs = [int(x) for x in re.findall(r"\d+", codes)]
             i = idx[int(j)]
             viol.append({"case": descr[k][i], "detail": "; ".join(KEY_CODES.get((k, c), str(c)) for c in cs), "codes": cs,
-                         "concrete": (any(c in (2, 5) for c in cs) if k in "KP" else (2 in cs if k == "H" else (k == "N"))), "coq": terms[k][i][:20000]})
+                         "concrete": (any(c in (2, 5, 6) for c in cs) if k in "KP" else (2 in cs if k == "H" else (k == "N"))), "coq": terms[k][i][:20000]})
         for f in (name + ".vo", name + ".glob", name + ".vok", name + ".vos", "." + name + ".aux"):
             try: os.remove(os.path.join(C["bdir"], f))
             except OSError: pass
@@ -298,6 +302,7 @@ HASH_HEADER = """From Coq Require Import List NArith ZArith Bool String.
 From Coq.Strings Require Import Byte.
 From Gopki.Model Require Import Bytes Base64 Der Asn1 Text Algs Ext Rdn Time X509 Generate Merge Validate Current Effective HashView HashCaseLib.
 Import ListNotations.
+Set Printing Depth 1000000.
 Definition cases : list hash_pair := [
 """
 HASH_CODES = {1: "model and implementation disagree on whether the two configuration hashes are equal",
@@ -328,7 +333,7 @@ def run_hview(kind, tier, seed, C):
             err = "coqc %s failed: %s" % (name, e.strip()[-400:]); continue
         m = re.search(r"M\s*=\s*(.*?)\s*:\s*list", re.sub(r"%(N|nat|Z)\b", "", o), re.S)
         if not m: err = "coqc %s: no result" % name; continue
-        found = re.findall(r"\((\d+), \[([^\]]*)\]\)", re.sub(r"\s+", " ", m.group(1)))
+        found = re.findall(r"\( ?(\d+), ?\[([^\]]*)\]\)", re.sub(r"\s+", " ", m.group(1)))
         err = count_check(o, len(found), name) or err
         for j, codes in found:
             cs = [int(x) for x in re.findall(r"\d+", codes)]; i = idx[int(j)]
